@@ -988,6 +988,9 @@ class Executor:
             recv, mname = fnv[1], fnv[2]
             if recv is None:
                 raise GoPanic("nil interface method call ." + mname)
+            if isinstance(recv, Opaque):
+                self.stats.stubs.add("%s.%s [opaque method]" % (recv.what, mname))
+                return self.finish_stub(st, fr, self.opaque_result(st, recv.what + "." + mname, ins), retname)
             if not isinstance(recv, Iface):
                 raise Unsupported("invoke on non-interface %r" % (recv,))
             if recv.tid == "opaque":
@@ -1041,6 +1044,10 @@ class Executor:
         if fname.endswith(".init") and not fname.startswith("(") and not self.init_allowed(fname[:-5]):
             return None
         if fn is None:
+            for pre in self.cfg.get("opaque_calls", ()):
+                if fname.startswith(pre) or fname.startswith("(*" + pre) or fname.startswith("(" + pre):
+                    self.stats.stubs.add(fname + " [opaque]")
+                    return self.finish_stub(st, fr, self.opaque_result(st, fname, ins), retname)
             raise Unsupported("call to external function without stub: " + fname)
         if self._region is None:
             from .merge import try_pure_call
@@ -1059,6 +1066,32 @@ class Executor:
             nf.locals[p["n"]] = b
         st.frames.append(nf)
         return None
+
+    def opaque_result(self, st, fname, ins):
+        """environment call that the property does not depend on (logging, context, errgroup...): no effect on modelled
+        memory; scalar results are fresh unconstrained symbols, everything else an opaque non-nil value"""
+        sig = self.p.T(ins["call"]["sig"]) if ins else None
+        if sig is None:
+            return None
+        outs = []
+        for rt in sig["results"]:
+            ii = self.p.intinfo(rt)
+            ut = self.p.U(rt)
+            if ii:
+                v = self.A.fresh(self.fresh_name("opaque"), ii[0], ii[1])
+                c = self.A.range_constraint(v, ii[0], ii[1])
+                if c is not True:
+                    st.pc.append(c)
+                outs.append(v)
+            elif ut["k"] == "basic" and ut["bk"] in BK_BOOL:
+                outs.append(z3.Bool(self.fresh_name("opaque")))
+            elif ut["k"] == "basic" and ut["bk"] in BK_STRING:
+                outs.append(self.str_const(st, b"<opaque>"))
+            else:
+                outs.append(Opaque(fname))
+        if not outs:
+            return None
+        return outs[0] if len(outs) == 1 else tuple(outs)
 
     # --- data instructions
     def i_BinOp(self, st, fr, ins):
